@@ -9,4 +9,5 @@ CONSTANTS
   BoundaryFixed = TRUE
 INVARIANT Inv
 INVARIANT InvRange
+INVARIANT Laws
 CHECK_DEADLOCK FALSE
